@@ -414,51 +414,68 @@ theorem plan_putObject (b k : Bytes) (hasBody hasMeta scOk lenPos : Bool) (c : N
   · exact forall_nil
   split
   · exact forall_nil
+  refine forall_withPath forall_nil fun bp hbp => ?_
+  have h0 : ∀ acc, P e enc (.putObject b k hasBody hasMeta scOk lenPos c) ⟨acc, .path bp⟩ :=
+    fun _ => L_bucket hr (bw (by simp [writeBuckets])) hbp
+  have hp0 : ∀ t ∈ [rd bp], P e enc (.putObject b k hasBody hasMeta scOk lenPos c) t :=
+    forall_cons (h0 _) forall_nil
   split
   · split
-    · exact forall_nil
-    · refine forall_withPath forall_nil fun p hp => ?_
+    · exact hp0
+    · refine forall_withPath hp0 fun p hp => ?_
       have h1 : P e enc (.putObject b k hasBody hasMeta scOk lenPos c) ⟨.create, .dirChain p⟩ :=
         L_objChain hr (bw (by simp [writeBuckets])) hp
-      touch_list <;> solve_by_elim
-  · refine forall_withPath forall_nil fun p hp => ?_
-    refine forall_withPath forall_nil fun tmp htmp => ?_
+      exact forall_append hp0 (forall_cons h1 forall_nil)
+  · refine forall_withPath hp0 fun p hp => ?_
+    refine forall_withPath hp0 fun tmp htmp => ?_
     have h1 : ∀ acc, P e enc (.putObject b k hasBody hasMeta scOk lenPos c) ⟨acc, .path p⟩ :=
       fun _ => L_obj hr (bw (by simp [writeBuckets])) hp
     have h2 : P e enc (.putObject b k hasBody hasMeta scOk lenPos c) ⟨.create, .dirChain (parentPath p)⟩ :=
       L_objChainParent hr (bw (by simp [writeBuckets])) hp
     have h3 : ∀ acc, P e enc (.putObject b k hasBody hasMeta scOk lenPos c) ⟨acc, .path tmp⟩ :=
       fun _ => L_name hr (good_tmpName c) (.inr (.inr rfl)) htmp
-    have hfw := forall_fileWrite (Q := P e enc (.putObject b k hasBody hasMeta scOk lenPos c)) h3 h2 h1
+    have hfw : ∀ t ∈ [rd bp] ++ fileWrite tmp p (parentPath p),
+        P e enc (.putObject b k hasBody hasMeta scOk lenPos c) t :=
+      forall_append hp0 (forall_fileWrite h3 h2 h1)
+    refine forall_withPath hfw fun m hm => ?_
+    have h4 : ∀ acc, P e enc (.putObject b k hasBody hasMeta scOk lenPos c) ⟨acc, .path m⟩ :=
+      fun _ => L_name hr (good_metadataName he b k (by simp)) (.inl rfl) hm
     split
-    · refine forall_withPath hfw fun m hm => ?_
-      have h4 : ∀ acc, P e enc (.putObject b k hasBody hasMeta scOk lenPos c) ⟨acc, .path m⟩ :=
-        fun _ => L_name hr (good_metadataName he b k (by simp)) (.inl rfl) hm
-      have hpre : ∀ t ∈ fileWrite tmp p (parentPath p) ++ [cr m, wr m],
+    · have hpre : ∀ t ∈ [rd bp] ++ fileWrite tmp p (parentPath p) ++ [cr m, wr m],
           P e enc (.putObject b k hasBody hasMeta scOk lenPos c) t :=
         forall_append hfw (forall_cons (h4 _) (forall_cons (h4 _) forall_nil))
       refine forall_withPath hpre fun i hi => ?_
       have h5 : ∀ acc, P e enc (.putObject b k hasBody hasMeta scOk lenPos c) ⟨acc, .path i⟩ :=
         fun _ => L_name hr (good_internalInfoName he b k) (.inr (.inl rfl)) hi
       exact forall_append hpre (forall_cons (h5 _) (forall_cons (h5 _) forall_nil))
-    · refine forall_withPath hfw fun i hi => ?_
+    · have hpre : ∀ t ∈ [rd bp] ++ fileWrite tmp p (parentPath p) ++ [rd m, rm m],
+          P e enc (.putObject b k hasBody hasMeta scOk lenPos c) t :=
+        forall_append hfw (forall_cons (h4 _) (forall_cons (h4 _) forall_nil))
+      refine forall_withPath hpre fun i hi => ?_
       have h5 : ∀ acc, P e enc (.putObject b k hasBody hasMeta scOk lenPos c) ⟨acc, .path i⟩ :=
         fun _ => L_name hr (good_internalInfoName he b k) (.inr (.inl rfl)) hi
-      exact forall_append hfw (forall_cons (h5 _) (forall_cons (h5 _) forall_nil))
+      exact forall_append hpre (forall_cons (h5 _) (forall_cons (h5 _) forall_nil))
 
 theorem plan_createMultipartUpload (b k : Bytes) (hasMeta : Bool) (u : Bytes) (hu : (47 : UInt8) ∉ u) :
     ∀ t ∈ (plan e enc (.createMultipartUpload b k hasMeta u)).touches,
       P e enc (.createMultipartUpload b k hasMeta u) t := by
   simp only [plan]
-  refine forall_withPath forall_nil fun info hinfo => ?_
+  refine forall_withPath forall_nil fun _ _ => ?_
+  refine forall_withPath forall_nil fun bp hbp => ?_
+  have h0 : P e enc (.createMultipartUpload b k hasMeta u) ⟨.read, .path bp⟩ :=
+    L_bucket hr (brd (by simp [readBuckets])) hbp
+  have hp0 : ∀ t ∈ [rd bp], P e enc (.createMultipartUpload b k hasMeta u) t := forall_cons h0 forall_nil
+  refine forall_withPath hp0 fun info hinfo => ?_
   have h1 : ∀ acc, P e enc (.createMultipartUpload b k hasMeta u) ⟨acc, .path info⟩ :=
     fun _ => L_name hr (good_uploadInfoName hu) (.inl rfl) hinfo
+  have hp1 : ∀ t ∈ [rd bp] ++ [cr info, wr info], P e enc (.createMultipartUpload b k hasMeta u) t :=
+    forall_append hp0 (forall_cons (h1 _) (forall_cons (h1 _) forall_nil))
   split
-  · refine forall_withPath (by touch_list <;> solve_by_elim) fun m hm => ?_
+  · refine forall_withPath hp1 fun m hm => ?_
     have h2 : ∀ acc, P e enc (.createMultipartUpload b k hasMeta u) ⟨acc, .path m⟩ :=
       fun _ => L_name hr (good_metadataName he b k (by intro x hx; cases hx; exact hu)) (.inr rfl) hm
-    touch_list <;> solve_by_elim
-  · touch_list <;> solve_by_elim
+    exact forall_append hp1 (forall_cons (h2 _) (forall_cons (h2 _) forall_nil))
+  · exact hp1
 
 theorem plan_uploadPart (b k uid : Bytes) (part : Int) (hasBody : Bool) (c : Nat) :
     ∀ t ∈ (plan e enc (.uploadPart b k uid part hasBody c)).touches,
